@@ -43,6 +43,7 @@ def check(rep: Report, ctx: Ctx) -> None:
     r75(rep, ctx)
     r76(rep, ctx, det)
     r77(rep, ctx)
+    r78(rep, ctx)
 
 
 def r71(rep: Report, ctx: Ctx, det: FuncInfo) -> None:
@@ -372,3 +373,115 @@ def r77(rep: Report, ctx: Ctx) -> None:
     rep.ob("R7.7", "reachability is measured from the graph's root", ok,
            fi=upd, node=c, detail=f"anchor = {unparse(c.args[1]) if len(c.args) > 1 else '?'} "
            "(the in-degree-0 event taken before the rewrite)")
+
+
+ROLES = ("start", "end", "break", "edge", "graph", "loop_event")
+
+# confirmed exceptions of the role rule: (caller, callee, parameter) -> reason
+ROLE_EXCEPTIONS = {
+    ("calculate_updated_graph_with_loop_event",
+     "update_graph_for_loop_end_events", "end_events"):
+        "break events that lost their path from the root are deliberately "
+        "re-attached behind the loop node exactly like end events (second "
+        "call; the first call passes loop.end_events)",
+}
+
+
+def _role(name: str) -> Optional[str]:
+    n = name.lower()
+    hits = [r for r in ROLES if r in n]
+    if "loop_edges" in n or "edges" in n:
+        return "edge"
+    if len(hits) == 1:
+        return hits[0]
+    # "end_event_to_event_lists" etc.: the leading word decides
+    for r in ROLES:
+        if n.startswith(r):
+            return r
+    return None
+
+
+def r78(rep: Report, ctx: Ctx) -> None:
+    rep.rule("R7.8", "loop components keep their role across positional "
+             "hand-offs (returned tuples, Loop(...) fields, helper "
+             "parameters): start stays start, end stays end, break stays "
+             "break", 8)
+    mods = [m for n, m in ctx.index.modules.items() if ".loop_detection." in n]
+    if len(mods) < 5:
+        raise AnalysisError("loop_detection package not found")
+    n = 0
+    for m in mods:
+        for fi in list(m.functions.values()):
+            # (a) tuple unpacking of a repository call
+            for st in ast.walk(fi.node):
+                if isinstance(st, ast.Assign) and isinstance(
+                        st.targets[0], ast.Tuple) and isinstance(
+                        st.value, ast.Call):
+                    callee = None
+                    for site in ctx.cg.sites_in(fi):
+                        if site.node is st.value and len(site.callees) == 1:
+                            callee = site.callees[0]
+                    if callee is None:
+                        continue
+                    rets = [r for r in ast.walk(callee.node)
+                            if isinstance(r, ast.Return) and isinstance(
+                                r.value, ast.Tuple)]
+                    if len(rets) != 1 or len(rets[0].value.elts) != len(
+                            st.targets[0].elts):
+                        continue
+                    pairs = [(unparse(a), unparse(b)) for a, b in zip(
+                        st.targets[0].elts, rets[0].value.elts)]
+                    bad = [(a, b) for a, b in pairs if _role(a) and _role(b)
+                           and _role(a) != _role(b)]
+                    n += 1
+                    rep.ob("R7.8", f"{fi.short}: unpacking of "
+                           f"{callee.short}()", not bad, fi=fi, node=st,
+                           detail=f"targets/returned: {pairs}"
+                                  + (f" -- role crossed: {bad}" if bad else ""))
+            # (b) positional arguments vs parameter names / NamedTuple fields
+            for site in ctx.cg.sites_in(fi):
+                c = site.node
+                if not isinstance(c, ast.Call) or len(site.callees) != 1:
+                    continue
+                callee = site.callees[0]
+                if ".loop_detection." not in callee.module.name:
+                    continue
+                params = [p for p in callee.params() if p != "self"]
+                pairs = [(unparse(a), p) for a, p in zip(c.args, params)
+                         if isinstance(a, (ast.Name, ast.Attribute))]
+                pairs += [(unparse(k.value), k.arg) for k in c.keywords
+                          if k.arg and isinstance(k.value, (ast.Name,
+                                                            ast.Attribute))]
+                bad = [(a, p) for a, p in pairs
+                       if _role(a.split(".")[-1]) and _role(p)
+                       and _role(a.split(".")[-1]) != _role(p)
+                       and {_role(a.split(".")[-1]), _role(p)} <= {
+                           "start", "end", "break"}]
+                bad = [(a, p) for a, p in bad
+                       if not ((fi.name, callee.name, p) in ROLE_EXCEPTIONS
+                               and _role(a.split(".")[-1]) == "break")]
+                if any(_role(p) in ("start", "end", "break")
+                       for _, p in pairs):
+                    n += 1
+                    rep.ob("R7.8", f"{fi.short} -> {callee.short}", not bad,
+                           fi=fi, node=c,
+                           detail=f"argument/parameter: {pairs}"
+                                  + (f" -- role crossed: {bad}" if bad else ""))
+    # (c) Loop(...) constructor: positional fields of the NamedTuple
+    loop_cls = ctx.index.cls("Loop")
+    fields = [f for f, _ in loop_cls.fields()]
+    for fi in ctx.index.all_functions():
+        for c in ast.walk(fi.node):
+            if isinstance(c, ast.Call) and isinstance(c.func, ast.Name) \
+                    and c.func.id == "Loop" and ctx.index.resolve_class(
+                        fi.module, "Loop") is loop_cls:
+                pairs = [(unparse(a)[:40], f) for a, f in zip(c.args, fields)]
+                bad = [(a, f) for a, f in pairs if _role(a) and _role(f)
+                       and _role(a) != _role(f) and {_role(a), _role(f)} <= {
+                           "start", "end", "break", "edge"}]
+                n += 1
+                rep.ob("R7.8", f"{fi.short}: Loop(...) fields", not bad
+                       and len(c.args) == len(fields), fi=fi, node=c,
+                       detail=f"{pairs}" + (f" -- role crossed: {bad}"
+                                            if bad else ""))
+    rep.analysed["handoffs_checked"] = n
